@@ -88,7 +88,10 @@ func peer(name string, sc Script, in, out *vio.Pipe, events *[]string) {
 		case "Plugin:handshake":
 			step = sc.Handshake
 			hsName, ver := name, sc.APIVersion
-			features := []tbin.Value{{T: tbin.I32, I: 1}}
+			var features []tbin.Value
+			for _, f := range Features(step.Fault) {
+				features = append(features, tbin.Value{T: tbin.I32, I: f})
+			}
 			switch step.Fault {
 			case "wrong-name":
 				hsName = name + "-impostor"
@@ -96,8 +99,6 @@ func peer(name string, sc Script, in, out *vio.Pipe, events *[]string) {
 				ver++
 			case "older-version":
 				ver--
-			case "no-feature":
-				features = nil
 			}
 			hs := tbin.Value{T: tbin.Struct, Fields: []tbin.Field{{ID: 1, V: bs(hsName)}, {ID: 2, V: tbin.Value{T: tbin.I32, I: int64(ver)}},
 				{ID: 3, V: tbin.Value{T: tbin.List, VT: tbin.I32, Items: features}}, {ID: 4, V: bs("fake")}}}
@@ -367,7 +368,7 @@ func judgeHost(w *ev.W, desc string, scripts map[string]Script, r l1Result, sche
 	if !anyFailed && !r.failed {
 		var want []string
 		for n, sc := range scripts {
-			if sc.Handshake.Fault != "no-feature" {
+			if !noGenerate(sc.Handshake.Fault) {
 				want = append(want, "fake_"+n+"/out.txt")
 			}
 		}
@@ -623,7 +624,7 @@ func init() {
 		}
 		p2s := []Script{okScript("p2"), withFault(okScript("p2"), "handshake", "wrong-name", 0), withFault(okScript("p2"), "generate", "garbage", 0)}
 		if !w.Quick() {
-			p2s = append(p2s, withFault(okScript("p2"), "handshake", "truncate", 5), withFault(okScript("p2"), "goodbye", "exception", 0), withFault(okScript("p2"), "handshake", "no-feature", 0), withFault(okScript("p2"), "generate", "exit-after-read", 0))
+			p2s = append(p2s, withFault(okScript("p2"), "handshake", "truncate", 5), withFault(okScript("p2"), "goodbye", "exception", 0), withFault(okScript("p2"), "handshake", "no-feature", 0), withFault(okScript("p2"), "handshake", "other-feature", 0), withFault(okScript("p2"), "generate", "exit-after-read", 0))
 		}
 		hss = append(hss, hs{"p1 ok p2 ok", map[string]Script{"p1": okScript("p1"), "p2": okScript("p2")}})
 		for _, sf := range single {
